@@ -32,6 +32,11 @@ func Size(r *R, min int) int {
 		return r.Pick(127, 128, 129, 255, 256, 257)
 	case 4:
 		return r.Range(300, 1200)
+	case 5: // around powers of two (buffer sizes, growth steps, 15-bit lengths)
+		if r.Chance(1, 3) {
+			return r.Pick(511, 512, 513, 1023, 1024, 1025, 2047, 2048, 2049, 4091, 4092, 4095, 4096, 4097, 4100, 8191, 8192, 8193, 16383, 16384, 16385, 32767, 32768, 32769)
+		}
+		return r.Range(min, 40)
 	default:
 		return r.Range(min, 40)
 	}
